@@ -97,7 +97,11 @@ def dep_nodes(info, lib_prefix="lib", include_version=True):
         d = dict(s)
         d["src"] = join_url(base, pct_encode(s["src"]))
         nodes.append(Tag("script", d))
-    if info.get("head") is not None:
+    if info.get("head_spec") is not None:
+        # head given as nodes (head_content(...)): the nodes themselves, in order
+        from ..spec import build
+        nodes.extend(build(c) for c in info["head_spec"])
+    elif info.get("head") is not None:
         nodes.append(HTML(info["head"]))
     return nodes
 
